@@ -24,7 +24,7 @@ FLOORS = {"had_suspension": 0.05, "two_classes_waiting_depleted": 0.05, "short_s
 
 
 def plan(tier):
-    return [{"kind": "hypothesis", "examples": 2500 if tier == "quick" else 80000}]
+    return [{"kind": "hypothesis", "examples": 2500 if tier == "quick" else 30000}]
 
 
 @st.composite
